@@ -1,7 +1,7 @@
 /* C06: arbitrary token bytes through jwt_checker_verify under ASan/UBSan/LSan.
  * modes: gen    (grammar-derived near-valid tokens and random bytes, --n cases)
  *        corpus (every file in directory --arg1 is one token)
- * Every token is shown to 10 checkers (2 providers x {no key, HS256, RS256 pub, ES256 pub, EdDSA pub}) that all carry a
+ * Every token is shown to 20 checkers (2 providers x {no key, HS256, RS256, ES256, Ed25519, PS256, ES384, ES512, ES256K, Ed448 public keys}) that all carry a
  * reading callback.  Accepted tokens are logged in full (the offline classifier asserts accepted => not definitely
  * malformed); a thin sample of rejected ones is logged for the evidence.
  * With -DVH_FUZZ_MAIN the same harness is a libFuzzer target.
@@ -9,13 +9,14 @@
 #include "vh.h"
 #include <dirent.h>
 
-#define NCHK 10
+#define NKEYS 9
+#define NCHK (2 * (NKEYS + 1))
 static jwt_checker_t *CHK[NCHK];
 static int CHK_PROV[NCHK];
-static vh_key_t K[4];
+static vh_key_t K[NKEYS];
 static jwk_set_t *sets[2];
-static const char *KSPEC[4] = { "oct:40", "rsa:2048", "ec:P-256", "okp:Ed25519" };
-static const int KALG[4] = { JWT_ALG_HS256, JWT_ALG_RS256, JWT_ALG_ES256, JWT_ALG_EDDSA };
+static const char *KSPEC[NKEYS] = { "oct:40", "rsa:2048", "ec:P-256", "okp:Ed25519", "rsa:2048", "ec:P-384", "ec:P-521", "ec:secp256k1", "okp:Ed448" };
+static const int KALG[NKEYS] = { JWT_ALG_HS256, JWT_ALG_RS256, JWT_ALG_ES256, JWT_ALG_EDDSA, JWT_ALG_PS256, JWT_ALG_ES384, JWT_ALG_ES512, JWT_ALG_ES256K, JWT_ALG_EDDSA };
 static vh_rng_t rng;
 static unsigned long n_tokens, n_verify, n_accept, cb_calls;
 static unsigned long gen_class[32];
@@ -42,11 +43,11 @@ static int read_cb(jwt_t *jwt, jwt_config_t *cfg)
 static void setup(uint64_t seed)
 {
 	vh_rng_seed(&rng, seed, 4242);
-	for (int i = 0; i < 4; i++)
+	for (int i = 0; i < NKEYS; i++)
 		if (vh_key_gen(&K[i], KSPEC[i], &rng)) vh_harness_fail("keygen");
 	for (int p = 0; p < 2; p++) {
 		vh_set_prov(p);
-		for (int j = 0; j < 5; j++) {
+		for (int j = 0; j <= NKEYS; j++) {
 			jwt_checker_t *c = jwt_checker_new();
 			if (!c) vh_harness_fail("checker_new");
 			if (j > 0) {
@@ -55,8 +56,8 @@ static void setup(uint64_t seed)
 			}
 			jwt_checker_setcb(c, read_cb, NULL);
 			jwt_checker_claim_set(c, JWT_CLAIM_ISS, "c06");
-			CHK[p * 5 + j] = c;
-			CHK_PROV[p * 5 + j] = p;
+			CHK[p * (NKEYS + 1) + j] = c;
+			CHK_PROV[p * (NKEYS + 1) + j] = p;
 		}
 	}
 }
@@ -64,7 +65,7 @@ static void teardown(void)
 {
 	for (int i = 0; i < NCHK; i++) jwt_checker_free(CHK[i]);
 	for (int p = 0; p < 2; p++) jwks_free(sets[p]);
-	for (int i = 0; i < 4; i++) vh_key_free(&K[i]);
+	for (int i = 0; i < NKEYS; i++) vh_key_free(&K[i]);
 }
 
 /* run one NUL-terminated token through all checkers; returns bitmask of accepting checkers */
@@ -164,7 +165,7 @@ static void gen_case(long idx)
 	int cls = (int)vh_below(&rng, 20);
 	/* huge and deeply nested inputs cost milliseconds each under ASan: 1 in 12 of their share */
 	if ((cls == 8 || cls == 9) && vh_below(&rng, 12)) cls = (int)vh_below(&rng, 8);
-	int kidx = (int)vh_below(&rng, 5) - 1;	/* -1: alg none */
+	int kidx = (int)vh_below(&rng, NKEYS + 1) - 1;	/* -1: alg none */
 	char *tok = NULL;
 	gen_class[cls]++;
 	switch (cls) {
